@@ -287,3 +287,9 @@ def r4(ctx):
                     bad = bad or o
     ctx.ob("_dispatcher:SSLDispatcher.select:pending-before-blocking", bad is None, "sock.pending() is consulted before every blocking select" if bad is None else
            "the TLS dispatcher blocks in select without first asking the TLS layer for buffered data: a burst inside one record would stall", "")
+
+
+@rule("R-C13-5", min_instances=3, title="precondition of readiness-driven delivery: the parser never buffers beyond the current frame (a burst leaves the rest readable)")
+def r5(ctx):
+    from .c02 import r5 as exact_consumption
+    exact_consumption(ctx)
